@@ -50,9 +50,12 @@ type toolPlan struct {
 	Inputs    map[string]*toolInput `json:"inputs"`   // by upstream file name (english, ...)
 	Prestate  map[string]string     `json:"prestate"` // absent | longer | shorter | junk | readonly
 	OrderSeed uint64                `json:"order_seed"`
-	FragSeed  uint64                `json:"frag_seed,omitempty"` // != 0: response bodies arrive in seeded short reads, the last one possibly with io.EOF
-	Canonical bool                  `json:"canonical,omitempty"`
-	NoDir     bool                  `json:"no_dir,omitempty"` // fault run: target directory missing (no verdict)
+	// Strays: leftovers of an earlier run that was killed between writing and renaming - files next to the
+	// targets under the temporary names such tools use; each holds a much longer stale file
+	Strays    []string `json:"strays,omitempty"`
+	FragSeed  uint64   `json:"frag_seed,omitempty"` // != 0: response bodies arrive in seeded short reads, the last one possibly with io.EOF
+	Canonical bool     `json:"canonical,omitempty"`
+	NoDir     bool     `json:"no_dir,omitempty"` // fault run: target directory missing (no verdict)
 }
 
 func (p *toolPlan) faultRun() bool {
@@ -215,6 +218,14 @@ func (g *c17Engine) run(tp *toolPlan) (*toolVerdict, map[string]int, error) {
 			os.WriteFile(tgt, prestateContent(kind), 0644)
 		}
 	}
+	strays := map[string]bool{}
+	if !tp.NoDir {
+		for _, sname := range tp.Strays {
+			strays[sname] = true
+			os.WriteFile(filepath.Join(wl, sname), prestateContent("longer"), 0644)
+			stats["stray_leftover_files"]++
+		}
+	}
 	env := []string{"BIP39_VERIF_UPSTREAM=" + filepath.Join(d, "up"), "ZZSIM_ORDER_SEED=" + strconv.FormatUint(tp.OrderSeed, 10)}
 	if tp.FragSeed != 0 {
 		env = append(env, "BIP39_VERIF_FRAG="+strconv.FormatUint(tp.FragSeed, 10))
@@ -247,7 +258,7 @@ func (g *c17Engine) run(tp *toolPlan) (*toolVerdict, map[string]int, error) {
 		want[ref.FileNames[l]+".go"] = true
 	}
 	for _, en := range ents {
-		if !want[en.Name()] {
+		if !want[en.Name()] && !strays[en.Name()] {
 			return &toolVerdict{Class: "extra-file", Key: "extra-file/" + en.Name(), Detail: "unexpected file " + en.Name() + " in internal/wordlist"}, stats, nil
 		}
 	}
@@ -512,6 +523,12 @@ func genToolPlan(seed uint64, i int) *toolPlan {
 	if r.Intn(2) == 0 {
 		tp.FragSeed = r.Uint64() | 1
 	}
+	if r.Intn(3) == 0 { // leftovers of a killed run
+		for k := 0; k < r.Range(1, 3); k++ {
+			name := ref.FileNames[r.Intn(ref.NumLang)]
+			tp.Strays = append(tp.Strays, []string{name + ".go.tmp", name + ".go.new", "." + name + ".go.tmp", name + ".go.partial", name + ".tmp", name + ".go~"}[r.Intn(6)])
+		}
+	}
 	hugeLang := -1
 	if i%30 == 11 {
 		hugeLang = r.Intn(ref.NumLang)
@@ -680,7 +697,7 @@ func CheckC17(e *Env) (int, error) {
 	cov := map[string]interface{}{
 		"evaluations":                runs,
 		"distinct_nontrivial":        len(distinct),
-		"rule":                       "a case = one run of the real update-wordlist binary (built with -tags verif, its map range rewritten to a seed-chosen order) against a simulated upstream (in-process file transport, ten generated files of letters and combining marks in 20 alphabets (scripts and letter/mark categories), 0-5000 lines and occasionally 70k-260k lines (> 1 MiB), blank lines, duplicates, with/without trailing newline; in half of the runs the response bodies arrive in seeded short reads, the last bytes possibly together with io.EOF; every 25th run the frozen canonical lists) and a seeded disk pre-state per target (absent, much longer stale file, shorter file, junk). Each output is parsed and type-checked and compared entry by entry with the non-empty input lines. Non-trivial: >= 1 target had a pre-existing file and >= 1 word is non-ASCII; distinct by digest of (inputs, pre-state, order).",
+		"rule":                       "a case = one run of the real update-wordlist binary (built with -tags verif, its map range rewritten to a seed-chosen order) against a simulated upstream (in-process file transport, ten generated files of letters and combining marks in 20 alphabets (scripts and letter/mark categories), 0-5000 lines and occasionally 70k-260k lines (> 1 MiB), blank lines, duplicates, with/without trailing newline; in half of the runs the response bodies arrive in seeded short reads, the last bytes possibly together with io.EOF; every 25th run the frozen canonical lists) and a seeded disk pre-state per target (absent, much longer stale file, shorter file, junk), in a third of the runs also leftovers of a killed earlier run under the temporary names such tools use (<lang>.go.tmp, .new, .partial, ...). Each output is parsed and type-checked and compared entry by entry with the non-empty input lines. Non-trivial: >= 1 target had a pre-existing file and >= 1 word is non-ASCII; distinct by digest of (inputs, pre-state, order).",
 		"exhaustive":                 false,
 		"samples":                    samples,
 		"runs":                       runs,
@@ -690,7 +707,7 @@ func CheckC17(e *Env) (int, error) {
 		"words_verified":             tot["words_verified"],
 		"canonical_lists_reproduced": tot["canonical_lists_reproduced"],
 		"faults_fired":               map[string]int{"prestate_longer": tot["prestate_longer"], "prestate_shorter": tot["prestate_shorter"], "prestate_junk": tot["prestate_junk"], "prestate_absent": tot["prestate_absent"], "fault_runs_no_verdict": tot["fault_runs_no_verdict"], "fault_runs_tool_failed": tot["fault_runs_tool_failed"]},
-		"probes":                     map[string]int{"truncation_needed_and_happened": tot["truncation_needed_and_happened"], "distinct_fetch_orders": len(firstLang), "runs_with_fragmented_bodies": tot["runs_with_fragmented_bodies"], "runs_with_a_file_over_64Ki_lines": scripts["runs_with_a_file_over_64Ki_lines"], "canonical_runs": scripts["canonical"]},
+		"probes":                     map[string]int{"truncation_needed_and_happened": tot["truncation_needed_and_happened"], "distinct_fetch_orders": len(firstLang), "runs_with_fragmented_bodies": tot["runs_with_fragmented_bodies"], "stray_leftover_files_of_a_killed_run": tot["stray_leftover_files"], "runs_with_a_file_over_64Ki_lines": scripts["runs_with_a_file_over_64Ki_lines"], "canonical_runs": scripts["canonical"]},
 		"map_ranges_rewritten":       rep.MapRanges,
 		"uncontrolled_ranges":        rep.OtherRanges,
 		"schedule_space_note":        "10! fetch orders x 5^10 pre-states: real but shallow; most of the strength is the workload through the simulated upstream",
